@@ -63,6 +63,13 @@ theorem diff_exact_goodT_fails :
   rw [h1] at h2
   exact absurd h2 (by decide)
 
+/-- C06 `apply_diff_partial` in the observation of C13: applying the computed diff to `A` gives `B` (`dataEqL true`) -/
+theorem apply_diff_obs (S : Schema) (fx : Fixes) (A B : List DNode) (hA : wfForest S A = true) (hB : wfForest S B = true)
+    (hk : KeysDistinguished S (A ++ B)) :
+    ∃ B', apply S A (diff S true A B) fx = .ok B' ∧ goodT S B' = true ∧ dataEqL true B' B = true := by
+  obtain ⟨B', h1, h2, h3, _⟩ := Diff.diff_chain_exact S fx A B B hA hB hB hk
+  exact ⟨B', h1, h2, (dataEqL_iff_norm B' B).mpr h3⟩
+
 /-- `reverse_apply` on the fragment, unconditionally: for well-formed `A`, `B` the reversed diff of `diff(A, B)`, applied to the
 tree the diff leads to, gives `A` back (structure, values, default flags of leaves / leaf-list instances). -/
 theorem reverse_apply_diff {S : Schema} {fx : Fixes} (K : KeyOrder S) {A B₀ : List DNode} (hA : wfForest S A = true)
@@ -269,5 +276,23 @@ theorem merge_table_accepts (sop cop : Op) (h : (opCode sop, opCode cop) ∈ Gen
     | exact ⟨cellN "none" "x" [("orig-default", bs "true")],
         cellN "replace" "z" [("orig-default", bs "false"), ("orig-value", bs "x")], by decide +kernel⟩
     | exact ⟨cellN "create" "x", cellN "none" "x" [("orig-default", bs "false")], by decide +kernel⟩
+
+/-- `merge_apply` over the trees of the fragment needs one more hypothesis than F18: the cell `none` + `replace` clears the
+default flag instead of taking the one of the second diff (`merge_cell_none_replace`, hypothesis `hnd`).  A = `f = d` (explicit),
+B = `f = d` (default-flagged), C = `f = e` default-flagged: the merged diff makes `f = e` without the flag.  Not reachable from
+validated data (a leaf that carries `LYD_DEFAULT` has its one schema default value, so B and C cannot both be flagged with
+different values) — `wfForest` / `goodT` do not say so; a tree-level `merge_apply_partial` has to assume it. -/
+theorem merge_apply_dfltvalue_fails :
+    ¬ ∀ (S : Schema) (A B C : List DNode), wfForest S A = true → wfForest S B = true → wfForest S C = true →
+        ∃ C', mergeApply S true {} A B C = .ok C' ∧ dataEqL true C' C = true := by
+  intro h
+  obtain ⟨C', h1, h2⟩ := h cellS [tm 0 "d"] [tm 0 "d" true] [tm 0 "e" true] (by decide +kernel) (by decide +kernel)
+    (by decide +kernel)
+  have h3 : (match mergeApply cellS true {} [tm 0 "d"] [tm 0 "d" true] [tm 0 "e" true] with
+      | .ok r => dataEqL true r [tm 0 "e" true] | .error _ => false) = false := by decide +kernel
+  rw [h1] at h3
+  simp only at h3
+  rw [h2] at h3
+  exact absurd h3 (by decide)
 
 end LyModel.Props.C13
